@@ -570,6 +570,12 @@ func (e *Exec) sha1Digest(in []*Term) []*Term {
 		}
 		return out
 	}
+	if e.cfg.HashTransparent {
+		// collision-freedom made literal: the digest *is* the input (its length differs from 20, which the
+		// entries using this model must not depend on)
+		e.stubUsed("crypto/sha1 modelled as the identity on its input (collision-free by construction; digest length not 20)")
+		return append([]*Term(nil), in...)
+	}
 	ufo := e.ufBytes("uf_sha1", in, 20, true)
 	copy(out, ufo)
 	e.stubUsed("crypto/sha1 as uninterpreted function (injective over the applications on a path)")
@@ -696,11 +702,7 @@ func (e *Exec) ufBytes(name string, in []*Term, outLen int, injective bool) []*T
 		apps = x.([][]*Term)
 	}
 	for _, prev := range apps {
-		same := make([]*Term, len(in))
-		for i := range in {
-			same[i] = e.tt.Eq(prev[i], in[i])
-		}
-		argsEq := e.tt.And(same...)
+		argsEq := e.bytesEq(prev, in)
 		if argsEq.IsTrue() {
 			continue
 		}
@@ -713,6 +715,44 @@ func (e *Exec) ufBytes(name string, in []*Term, outLen int, injective bool) []*T
 	apps = append(apps, in)
 	e.hostState[key] = apps
 	return out
+}
+
+// bytesEq is the conjunction of bytewise equalities, except that a run of bytes that are exactly the
+// big-endian bytes of one wider term on both sides is compared as that wider term (same meaning,
+// far cheaper for the integer-encoded back end).
+func (e *Exec) bytesEq(a, b []*Term) *Term {
+	wide := func(ts []*Term, i int) (*Term, int) {
+		t := ts[i]
+		if t.op != OpExtract {
+			return nil, 0
+		}
+		x := t.args[0]
+		n := x.sort.W / 8
+		if x.sort.W%8 != 0 || n < 2 || i+n > len(ts) {
+			return nil, 0
+		}
+		for k := 0; k < n; k++ {
+			u := ts[i+k]
+			hi := x.sort.W - 1 - 8*k
+			if u.op != OpExtract || u.args[0] != x || u.c != uint64(hi)<<8|uint64(hi-7) {
+				return nil, 0
+			}
+		}
+		return x, n
+	}
+	var cs []*Term
+	for i := 0; i < len(a); {
+		xa, na := wide(a, i)
+		xb, nb := wide(b, i)
+		if xa != nil && xb != nil && na == nb {
+			cs = append(cs, e.tt.Eq(xa, xb))
+			i += na
+			continue
+		}
+		cs = append(cs, e.tt.Eq(a[i], b[i]))
+		i++
+	}
+	return e.tt.And(cs...)
 }
 
 // opaqueString: the textual form of symbolic bytes is not modelled; it is a fixed-length string of
